@@ -368,6 +368,13 @@ def evaluate__round_half_to_even(self: XPathFunction, context: ta.ContextType = 
         raise self.error(code, "invalid argument type {!r}".format(type(item)))
 
     precision = 0 if len(self) < 2 else self[1].evaluate(context)
+    if isinstance(precision, int) and precision < -400 and item != 0 and \
+            -precision > Decimal(item).adjusted() + 1:
+        # Every digit is rounded off. Python's round() is not usable with a huge negative
+        # number of digits (it computes the power of ten, or raises OverflowError).
+        return 0 if isinstance(item, int) else type(item)(0) if not isinstance(item, float) \
+            else item * 0
+
     try:
         if isinstance(item, int):
             return round(item, precision)  # type: ignore[arg-type]
@@ -381,11 +388,7 @@ def evaluate__round_half_to_even(self: XPathFunction, context: ta.ContextType = 
             return []
         raise self.error('XPTY0004', err)
     except (DecimalException, OverflowError):
-        if isinstance(precision, int) and precision < 0 and item == item and item != 0 and \
-                -precision > Decimal(item).adjusted() + 1:
-            # every digit is rounded off (the precision is beyond the range of Python's round)
-            return type(item)(0) if not isinstance(item, float) else item * 0
-        elif isinstance(item, Decimal):
+        if isinstance(item, Decimal):
             prec = max(item.adjusted() + 2 + max(precision, 0), 1)
             if prec <= 10000:
                 with localcontext() as ctx:
